@@ -29,7 +29,7 @@ type TestSpec struct {
 	Rem      int64   `json:"rem,omitempty"`
 	MsgFn    bool    `json:"msgfn,omitempty"`    // z.MessageFunc setting "MF:<code>"
 	Params   []KV    `json:"params,omitempty"`   // z.Params(...) replaces the test's params
-	Edited   bool    `json:"edited,omitempty"` // Reusable, and the options were applied to a copy of the Test value after construction
+	Edited   bool    `json:"edited,omitempty"`   // Reusable, and the options were applied to a copy of the Test value after construction
 	Reusable bool    `json:"reusable,omitempty"` // custom test built with z.TestFunc(code, fn, opts...) and added with schema.Test(t)
 	TFunc    bool    `json:"tfunc,omitempty"`    // custom test written as z.Test{Func: func(val, ctx)} that adds its own issue via ctx.AddIssue(ctx.Issue()...)
 }
@@ -54,10 +54,11 @@ type Node struct {
 	PTs     []PTSpec   `json:"pts,omitempty"`
 	Fields  []*Field   `json:"fields,omitempty"`
 	Elem    *Node      `json:"elem,omitempty"`
-	CT      string     `json:"ct,omitempty"`      // custom: "string"|"int"; pre: "any_str"|"str_list"
-	ReqOpt  *TestSpec  `json:"req_opt,omitempty"` // options passed to Required()/NotNil(): Msg, Code, Path
-	W       string     `json:"w,omitempty"`       // width variant: int -> "64" (Int64 / int64), float -> "32" (Float32 / float32)
-	Coercer string     `json:"coercer,omitempty"` // z.WithCoercer on a primitive: "const" (always CoVal) | "fail" (always an error)
+	CT      string     `json:"ct,omitempty"`       // custom: "string"|"int"; pre: "any_str"|"str_list"
+	ReqOpt  *TestSpec  `json:"req_opt,omitempty"`  // options passed to Required()/NotNil(): Msg, Code, Path
+	OptCall bool       `json:"opt_call,omitempty"` // optional node built as .Required().Optional()
+	W       string     `json:"w,omitempty"`        // width variant: int -> "64" (Int64 / int64), float -> "32" (Float32 / float32)
+	Coercer string     `json:"coercer,omitempty"`  // z.WithCoercer on a primitive: "const" (always CoVal) | "fail" (always an error)
 	CoVal   *Val       `json:"co_val,omitempty"`
 	ID      int        `json:"-"`
 }
@@ -193,6 +194,9 @@ func typeOf(n *Node, rev bool) reflect.Type {
 	case "int":
 		if n.W == "64" {
 			return reflect.TypeOf(int64(0))
+		}
+		if n.W == "32" {
+			return reflect.TypeOf(int32(0))
 		}
 		return reflect.TypeOf(int(0))
 	case "float":
@@ -644,9 +648,11 @@ func numVal(v Val) float64 {
 }
 
 // buildNum builds a number schema of any width from the node description.
-func buildNum[T int | int64 | float64 | float32](e *Engine, n *Node, s *z.NumberSchema[T], conv func(Val) T, param func(TestSpec) T) z.ZogSchema {
+func buildNum[T int | int64 | int32 | float64 | float32](e *Engine, n *Node, s *z.NumberSchema[T], conv func(Val) T, param func(TestSpec) T) z.ZogSchema {
 	if n.Req {
 		s.Required(reqOpts(n)...)
+	} else if n.OptCall {
+		s.Required().Optional() // the later call counts
 	}
 	if n.Def != nil {
 		s.Default(conv(*n.Def))
@@ -705,6 +711,8 @@ func (e *Engine) coercerOpts(n *Node) []z.SchemaOption {
 		switch {
 		case n.Kind == "int" && n.W == "64":
 			return int64(v.(int)), nil
+		case n.Kind == "int" && n.W == "32":
+			return int32(v.(int)), nil
 		case n.Kind == "float" && n.W == "32":
 			return float32(v.(float64)), nil
 		}
@@ -719,6 +727,8 @@ func (e *Engine) Build(n *Node) z.ZogSchema {
 		s := z.String(e.coercerOpts(n)...)
 		if n.Req {
 			s.Required(reqOpts(n)...)
+		} else if n.OptCall {
+			s.Required().Optional() // the later call counts
 		}
 		if n.Def != nil {
 			s.Default(n.Def.S)
@@ -841,16 +851,25 @@ func (e *Engine) Build(n *Node) z.ZogSchema {
 		if n.W == "64" {
 			return buildNum(e, n, z.Int64(e.coercerOpts(n)...), func(v Val) int64 { return v.I }, func(t TestSpec) int64 { return t.N })
 		}
+		if n.W == "32" {
+			return buildNum(e, n, z.Int32(e.coercerOpts(n)...), func(v Val) int32 { return int32(v.I) }, func(t TestSpec) int32 { return int32(t.N) })
+		}
 		return buildNum(e, n, z.Int(e.coercerOpts(n)...), func(v Val) int { return int(v.I) }, func(t TestSpec) int { return int(t.N) })
 	case "float":
 		if n.W == "32" {
 			return buildNum(e, n, z.Float32(e.coercerOpts(n)...), func(v Val) float32 { return float32(numVal(v)) }, func(t TestSpec) float32 { return float32(t.F) })
+		}
+		if n.OptCall {
+			// z.Float is the documented short name of z.Float64
+			return buildNum(e, n, z.Float(e.coercerOpts(n)...), func(v Val) float64 { return numVal(v) }, func(t TestSpec) float64 { return t.F })
 		}
 		return buildNum(e, n, z.Float64(e.coercerOpts(n)...), func(v Val) float64 { return numVal(v) }, func(t TestSpec) float64 { return t.F })
 	case "bool":
 		s := z.Bool(e.coercerOpts(n)...)
 		if n.Req {
 			s.Required(reqOpts(n)...)
+		} else if n.OptCall {
+			s.Required().Optional() // the later call counts
 		}
 		if n.Def != nil {
 			s.Default(n.Def.B)
@@ -880,6 +899,8 @@ func (e *Engine) Build(n *Node) z.ZogSchema {
 		s := z.Time(e.coercerOpts(n)...)
 		if n.Req {
 			s.Required(reqOpts(n)...)
+		} else if n.OptCall {
+			s.Required().Optional() // the later call counts
 		}
 		if n.Def != nil {
 			s.Default(MustTime(n.Def.S))
@@ -907,9 +928,27 @@ func (e *Engine) Build(n *Node) z.ZogSchema {
 		}
 		return s
 	case "slice":
-		s := z.Slice(e.Build(n.Elem))
+		var sopts []z.SchemaOption
+		if n.Coercer != "" {
+			sopts = append(sopts, z.WithCoercer(func(data any) (any, error) {
+				if e.yield != nil {
+					e.yield("coercer")
+				}
+				if n.Coercer == "fail" || n.CoVal == nil {
+					return nil, fmt.Errorf("custom slice coercer rejects %T", data)
+				}
+				out := make([]any, len(n.CoVal.L))
+				for i, v := range n.CoVal.L {
+					out[i] = v.ToGo()
+				}
+				return out, nil
+			}))
+		}
+		s := z.Slice(e.Build(n.Elem), sopts...)
 		if n.Req {
 			s.Required(reqOpts(n)...)
+		} else if n.OptCall {
+			s.Required().Optional() // the later call counts
 		}
 		if n.Def != nil {
 			s.Default(e.own("default", n, Populate(TypeOf(n), *n.Def).Interface()))
